@@ -88,7 +88,7 @@ def run(chk, repo: Repo):
     chk.rule("C14-R1", "checkpoint payload (_STATE_KEYS ∪ _HISTORY_KEYS, property names mapped to backing fields) ⊇ "
                        "attributes written during the run and read before written by step (or by tune after step)", floor=12)
     chk.rule("C14-R2", "no in-place write reaches an object recorded in the chain history (experimental: the state "
-                       "attribute appended by sample/warmup; legacy: arguments of single_update, which are views of the chain)", floor=16)
+                       "attribute appended by sample/warmup; legacy: arguments of single_update, which are views of the chain) nor, in cuqi/solver, an array handed to a solver", floor=16)
     chk.rule("C14-R3", "chain loops: per iteration exactly one transition, one record of the new state and one callback "
                        "with that state and its chain index, in this order", floor=13)
     chk.rule("C14-R4", "state keys assigned from constructor parameters are re-derived by initialize/_initialize or "
@@ -119,7 +119,7 @@ def run(chk, repo: Repo):
     _r7(chk, repo, base)
     _legacy(chk, repo)
     chk.rule("C14-R9", "both Gibbs samplers: every sweep is stored once; a continued run resumes from the last stored sample "
-                       "(warm-up column only if no sample was ever stored) [rule bodies shared with C09-R4]", floor=5)
+                       "(warm-up column only if no sample was ever stored); no effect outside the sweep loop [rule bodies shared with C09-R4]", floor=5)
     from . import c09
     from .common import shadow
     shadow(chk, "C09-R4", "C14-R9", lambda c: (c09._hybrid(c, repo), c09._legacy(c, repo)))
